@@ -26,7 +26,8 @@ def cases(draw):
     role = draw(st.sampled_from(["client", "server"]))
     state = draw(st.sampled_from(["open", "open", "open", "closing", "wait-cea" if role == "client" else "server-closed"]))
     kind = draw(st.sampled_from(["mutation", "mutation", "misaddressed", "unknown-enumerator", "wrong-width", "short-host-ip",
-                                 "good+length0", "good+short-length", "good+garbage-header", "binary-user-name", "stale-base-answer"]))
+                                 "good+length0", "good+short-length", "good+garbage-header", "binary-user-name", "stale-base-answer",
+                                 "foreign-vendor-routing-avp"]))
     mut = draw(c03.cases) if kind == "mutation" else None
     return {"kind": "live", "role": role, "state": state, "input": kind, "mut": mut, "cuts": draw(st.lists(st.integers(1, 600), max_size=3)),
             "hbh": draw(st.integers(1, 2**32 - 1))}
@@ -68,6 +69,17 @@ def build_input(case):
         return good + bad, False
     if k == "stale-base-answer":
         return b"", True                   # built at run time from what the node has sent (see stale_base_answer)
+    if k == "foreign-vendor-routing-avp":
+        # a well-formed request that also carries an AVP with the *code* of Destination-Host / Destination-Realm / Origin-Host
+        # under a foreign Vendor-Id (V flag set): a different AVP as far as the dictionary is concerned
+        code = [293, 283, 264, 263][case["hbh"] % 4]
+        extra = rc.enc_avp(code, 0xC0 if case["hbh"] % 8 < 4 else 0x80, 99999, b"other.host.example")
+        base = rc.dec_stream(app_request(case["hbh"], 7, dest_realm=LOCAL["realm"]))[0]
+        with_dest = (case["hbh"] // 8) % 2 == 0
+        avps = [a["raw"] for a in base["avps"] if with_dest or a["code"] not in (283, 293)]
+        pos = (case["hbh"] // 16) % (len(avps) + 1)
+        avps.insert(pos, extra)
+        return rc.enc_msg(1, base["flags"], base["cmd"], base["app"], case["hbh"], 7, avps), True
     if k == "binary-user-name":
         return app_request(case["hbh"], 7, dest_realm=LOCAL["realm"], user=b"\xff\xfe\x00\x80name"), True
     if k == "short-host-ip":
